@@ -68,6 +68,9 @@ def histories(tier: str) -> List[Tuple[str, ...]]:
         ("DA()", "DB()", "DC()", "DD()", "DE()", "DF()", "None"),
         ("None", "DF()", "DE()", "DD()", "DC()", "DB()", "DA()", "0"),
         ("[DA()]", "[DB()]", "[DC()]", "[DD()]", "[DE()]", "[DF()]", "[None]"),
+        ("{0}", "{0, 'a', 1.5, b'x', None, (0,)}"), ("{0, 'a', 1.5, b'x', None, (0,)}", "{'a'}", "{0}"),
+        ("{1: 0}", "{1: 0, 2: 'a', 3: 1.5, 4: b'x', 5: None, 6: (0,)}"), ("defaultdict(int, {1: 0})", "defaultdict(int, {1: 0, 2: 'a', 3: 1.5, 4: b'x', 5: None, 6: (0,)})"),
+        ("[0]", "0", "{'a': 0}", "'a'", "(0, 'a')"),
     ]
     if tier == "thorough":
         hs += [(e,) for e in V.depth2(quick=True)]
@@ -383,6 +386,90 @@ def run_module(res: Result, ctx: Ctx, mi: int, hs: List[Tuple[str, ...]], srcdir
     del sys.modules[modname]
 
 
+def persistent_logger_stage(ctx: Ctx) -> Result:
+    """A Config that keeps ONE CallTraceStoreLogger for all its tracing sessions, over a store whose add() fails
+    transiently (`database is locked`): three sessions with different argument types, every subset of the first two flushes
+    failing, the last one succeeding. The failures are contained, and the stub produced afterwards admits every value of
+    every session (what a failed flush could not store is still with the logger)."""
+    import sqlite3
+
+    import mcfg
+    import monkeytype
+    from monkeytype import cli
+    from monkeytype.db.base import CallTraceStoreLogger
+    from monkeytype.db.sqlite import SQLiteStore
+
+    res = Result()
+    srcdir = ctx.tmp / "c01_persist"
+    srcdir.mkdir(exist_ok=True)
+    if str(srcdir) not in sys.path:
+        sys.path.insert(0, str(srcdir))
+    modname = f"c01persist_{ctx.seed}"
+    (srcdir / f"{modname}.py").write_text("def label(x):\n    return [x]\n")
+    importlib.invalidate_caches()
+    M = importlib.import_module(modname)
+    files = {M.__file__}
+    sessions = [[0, 1], ["text"], [None, 2.5]]
+    for failing in ((), (1,), (2,), (1, 2)):
+        db = str(srcdir / f"p_{'_'.join(map(str, failing)) or 'none'}.sqlite3")
+        if os.path.exists(db):
+            os.unlink(db)
+        mcfg.reset(db=db, k=0, filter=lambda code: code.co_filename in files)
+        calls = {"n": 0}
+        real = SQLiteStore.make_store(db)
+
+        class Flaky:
+            def add(self, traces):
+                calls["n"] += 1
+                if calls["n"] in failing:
+                    raise sqlite3.OperationalError("database is locked")
+                return real.add(traces)
+
+            def filter(self, *a, **kw):
+                return real.filter(*a, **kw)
+
+            def list_modules(self):
+                return real.list_modules()
+
+        logger_ = CallTraceStoreLogger(Flaky())  # type: ignore[arg-type]
+
+        class Persist(mcfg.Cfg):
+            def trace_logger(self):
+                return logger_
+
+        cfg = Persist()
+        observed: Dict[str, Dict[str, List[Any]]] = {"label": {"param": [], "return": [], "yield": []}}
+        escaped = None
+        for vals in sessions:
+            try:
+                with monkeytype.trace(cfg):
+                    for v in vals:
+                        observed["label"]["param"].append(v)
+                        observed["label"]["return"].append(M.label(v))
+            except Exception as e:  # noqa: BLE001
+                escaped = e
+        res.states += 1
+        res.evaluations += 1
+        res.validated += 1
+        res.transitions += 3
+        case = {"module": -9, "k": 0, "rewriter": "DEFAULT", "flag": 0, "tier": ctx.tier, "failing_flushes": list(failing)}
+        if escaped is not None:
+            res.violate(Violation(ID, "exception", "flush-failure-escaped", case, f"a failing store made trace() raise {escaped!r}"))
+            continue
+        out, err = io.StringIO(), io.StringIO()
+        mcfg.reset(db=db, k=0)
+        rc = cli.main(["-c", "mcfg:fresh()", "stub", modname], out, err)
+        if rc != 0 or not out.getvalue().strip():
+            res.violate(Violation(ID, "exception", "stub-failed", case, f"rc={rc} stderr={err.getvalue()[-200:]}"))
+            continue
+        metas = [{"fn": "label", "pn": "x", "kind": "function", "history": [repr(s_) for s_ in sessions]}]
+        for kind, sig, fn, msg in judge_stub(out.getvalue(), M, metas, observed, [])[:2]:
+            res.violate(Violation(ID, kind, "traces-lost-after-failed-flush:" + sig, case, f"flushes {list(failing)} of 3 failed (transient store error), one logger for all sessions: " + msg))
+    res.oblige("persistent-logger-with-failing-store", True)
+    sys.modules.pop(modname, None)
+    return res
+
+
 def modules(tier: str) -> List[List[Tuple[str, ...]]]:
     hs = histories(tier)
     n = 48
@@ -403,6 +490,8 @@ def run(ctx: Ctx) -> Result:
         return res
 
     res = run_shards(ctx, shard, list(range(nshards)))
+    res.merge(persistent_logger_stage(ctx))
+    res.obligations.setdefault("persistent-logger-with-failing-store", False)
     for rname, _ in rewriters():
         res.obligations.setdefault(f"rewriter:{rname}", False)
     for i in range(len(FLAGS)):
@@ -416,6 +505,8 @@ def run(ctx: Ctx) -> Result:
 def replay(case: Dict[str, Any], ctx: Ctx) -> List[Violation]:
     res = Result()
     ctx.tier = case.get("tier", "quick")
+    if case.get("module") == -9:
+        return persistent_logger_stage(ctx).violations
     ms = modules(ctx.tier)
     srcdir = ctx.tmp / "c01_replay"
     srcdir.mkdir(exist_ok=True)
